@@ -7,6 +7,7 @@ CONSTANTS
   WakeOffset = 0
   KeepFirstWaker = FALSE
   AvailLe = TRUE
+  WakeBeforeDecrement = FALSE
 SPECIFICATION Spec
 VIEW View
 INVARIANTS C17_TotalIsGuards C17_WakeOnRelease
